@@ -69,8 +69,8 @@ theorem bad_content_length_outcome (fuel idx : Nat) (s : St) (bs : Bytes) (fin :
   simp [runLoop, hh, hf, St.emit, St.finish]
 
 example : (Conn.run b!"POST / HTTP/1.1\r\nContent-Length: 5x\r\n\r\nGET /smuggled HTTP/1.1\r\n\r\n" .eof
-    (fun _ => ⟨0, 0, 1, .drop⟩)).statuses = [400] := by decide
+    (fun _ => ⟨0, 0, 1, .drop, false⟩)).statuses = [400] := by decide
 example : (Conn.run b!"POST / HTTP/1.1\r\n Transfer-Encoding: chunked\r\n\r\n0\r\n\r\n" .eof
-    (fun _ => ⟨0, 0, 1, .drop⟩)).delivered.length = 0 := by decide
+    (fun _ => ⟨0, 0, 1, .drop, false⟩)).delivered.length = 0 := by decide
 
 end TH.Props.C16
